@@ -32,6 +32,16 @@ def tasks(tier, seed):
                             'is_open/good/eof against a reference state machine' % (steps, OPS[a], OPS[b]),
                        reach=('h_hist:end',), bounds='history length %d; files of 2 objects' % steps,
                        kinds={'assert', 'memory', 'leak', 'uncaught_exception', 'terminate', 'deadlock', 'hang', 'limit'}))
+    # crash-leftover file: the stream ends inside an object; everything the library allocated for it must still be released
+    for b in (4, 6, 7):
+        txt = '#define VP_FS_CAP 4096\n#define STEPS %d\n#define FIRST_OP 2\n#define SECOND_OP %d\n#define DAMAGED_FILE 1\n' % (steps, b) + src
+        ts.append(Task('hist_damaged.open_valid.%s' % OPS[b].split('(')[0], txt, 'h_hist', None,
+                       opts=dict(validate=False, extra=['zlib_stub.cpp'], limit_is_hang=True, max_wall=1500, max_steps=6000000, enum_limit=400,
+                                 max_paths=400000),
+                       desc='histories of length %d starting with open(in) of a file whose last container lost its tail (an object '
+                            'ends abruptly), then %s, ...: leak / lifetime checks' % (steps, OPS[b]),
+                       reach=('h_hist:end',), bounds='history length %d' % steps,
+                       kinds={'assert', 'memory', 'leak', 'uncaught_exception', 'terminate', 'deadlock', 'hang', 'limit'}))
     meta = dict(
         level='model_checking',
         explanation='Histories of API calls are enumerated completely up to the bound (structural choices fork paths); each runs the '
